@@ -103,6 +103,50 @@ def surface(text: str) -> Optional[Set[str]]:
     return out
 
 
+def _scope_bindings(body) -> Set[str]:
+    """Names bound by ANY binding form in the scope made of `body` (compound statements entered, defs/classes not)."""
+    out: Set[str] = set()
+    stack = list(body)
+    while stack:
+        st = stack.pop()
+        out.update(_bound_by_statement(st))
+        if isinstance(st, (ast.FunctionDef, ast.AsyncFunctionDef, ast.ClassDef)):
+            continue
+        if isinstance(st, (ast.Import, ast.ImportFrom)):
+            for a in st.names:
+                out.add((a.asname or a.name).split(".")[0])
+        if isinstance(st, (ast.For, ast.AsyncFor)):
+            out.update(_targets(st.target))
+        if isinstance(st, (ast.With, ast.AsyncWith)):
+            for item in st.items:
+                if item.optional_vars is not None:
+                    out.update(_targets(item.optional_vars))
+        for node in ast.walk(st) if not isinstance(st, (ast.FunctionDef, ast.AsyncFunctionDef, ast.ClassDef)) else ():
+            if isinstance(node, ast.NamedExpr):
+                out.update(_targets(node.target))
+        for field in ("body", "orelse", "finalbody"):
+            stack.extend(getattr(st, field, []) or [])
+        for h in getattr(st, "handlers", []) or []:
+            stack.extend(h.body)
+        for c in getattr(st, "cases", []) or []:
+            stack.extend(c.body)
+    return out
+
+
+def bound_surface(text: str) -> Optional[Set[str]]:
+    """Liberal reading for the OUTPUT side of C07/C08: a name counts as still defined if any binding form in
+    module scope (or, for 'Class.member', in the scope of that top-level class) binds it."""
+    tree = _parse(text)
+    if tree is None:
+        return None
+    out = set(_scope_bindings(tree.body))
+    for stmt in ast.walk(tree):
+        if isinstance(stmt, ast.ClassDef):
+            for n in _scope_bindings(stmt.body):
+                out.add(f"{stmt.name}.{n}")
+    return out
+
+
 def defined_names(text: str) -> Optional[Set[str]]:
     """Every name defined anywhere as def / class / assignment target (plus Class.member): for C08."""
     tree = _parse(text)
